@@ -402,6 +402,7 @@ class ASTTypeBuilder:
             description=object_type.description,
             fields=fields,
             interfaces=interfaces,
+            default_resolver=object_type.default_resolver,
             nodes=object_type.nodes + extensions,  # type: ignore
         )
 
@@ -413,7 +414,9 @@ class ASTTypeBuilder:
             deprecation_reason=field_def.deprecation_reason,
             args=[self._extend_argument(a) for a in field_def.arguments],
             resolver=field_def.resolver,
+            subscription_resolver=field_def.subscription_resolver,
             node=field_def.node,
+            python_name=field_def.python_name,
         )
 
     def _extend_interface_type(
@@ -440,6 +443,7 @@ class ASTTypeBuilder:
             name,
             description=interface_type.description,
             fields=fields,
+            resolve_type=interface_type.resolve_type,
             nodes=interface_type.nodes + extensions,  # type: ignore
         )
 
@@ -496,6 +500,7 @@ class ASTTypeBuilder:
             name,
             description=union_type.description,
             types=member_types,
+            resolve_type=union_type.resolve_type,
             nodes=union_type.nodes + extensions,  # type: ignore
         )
 
@@ -546,6 +551,7 @@ class ASTTypeBuilder:
             default_value=field._default_value,
             description=field.description,
             node=field.node,
+            python_name=field.python_name,
         )
 
     def _extend_scalar_type(self, scalar_type: ScalarType) -> ScalarType:
@@ -568,6 +574,7 @@ class ASTTypeBuilder:
             default_value=argument._default_value,
             description=argument.description,
             node=argument.node,
+            python_name=argument.python_name,
         )
 
 
